@@ -2,6 +2,7 @@
 
 RUNNER_TUS = {
     'fuzz': ['fuzz_uci.cpp'],
+    'fuzzbook': ['fuzz_book.cpp'],
     'runner': ['rc_driver.cpp', 'pbt_movegen.cpp', 'pbt_position.cpp', 'pbt_moves.cpp', 'exh_tables.cpp', 'pbt_eval.cpp', 'pbt_book.cpp', 'pbt_search.cpp', 'sched_uci.cpp', 'sched_exit.cpp', 'pbt_session.cpp'],
 }
 
@@ -213,8 +214,8 @@ PROPS['C14'] = dict(
 )
 
 PROPS['C19'] = dict(
-    level='fault_enumeration',
-    technique=PBT + ' over generated byte-level book files (well-formed, empty, truncated); reference reader + exact record multiset + bounded statistics for the sampler',
+    level='fault_enumeration', run_fn='run_c19', replay_fn='replay_c19',
+    technique=PBT + ' over generated byte-level book files (well-formed, empty, truncated) plus coverage-guided libFuzzer mutation of book files with the same oracles inside the target; reference reader + exact record multiset + bounded statistics for the sampler',
     level_text=('Book files are generated as byte strings (0-40 records, keys from a pool of real positions so keys repeat, castling as king-takes-rook, promotions, weights incl. 0/1/65535, '
                 'tails truncated by 1-15 bytes, empty files) and loaded by the engine; the loaded record multiset per key (read through a guarded friend hook) must equal the file\'s complete records; '
                 'best = a maximal-weight move correctly decoded; random = never a zero-weight move (exact) and frequencies within 0.04 of weight/sum over 20,000 draws for every weight vector; one case in six loads two or three books in a row through `setoption` of the in-process Uci::loop (the book must be exactly the file just named).'),
@@ -222,8 +223,9 @@ PROPS['C19'] = dict(
     rule='evaluations = books loaded + policy checks. Non-trivial = distinct books with a repeated key, a zero weight, a truncated tail, or empty.',
     assumptions=['decode of a record in a position follows the Polyglot format text (castling stored as king-takes-rook, also accepted in king-two-squares form)'],
     quick=dict(cases=450, shards=16, scale=3, gates={'c19:truncated_file': 100, 'c19:empty_file': 30, 'c19:repeated_key': 300, 'c19:zero_weight': 200,
-                                                  'c19:castling_record': 100, 'c19:promotion_record': 50, 'c19:distribution_checked': 100}, min_nontrivial=500),
-    thorough=dict(cases=3000, shards=16, scale=3, min_nontrivial=20000),
+                                                  'c19:castling_record': 100, 'c19:promotion_record': 50, 'c19:distribution_checked': 100}, min_nontrivial=500,
+               fuzz_jobs=8, fuzz_runs=30000),
+    thorough=dict(cases=3000, shards=16, scale=3, min_nontrivial=20000, fuzz_jobs=16, fuzz_runs=1500000),
 )
 
 SEARCH_NOTE = ('Searches run in-process (Search::go, stdout captured) on a 4,096-entry table (guarded hook) with a harness-owned node-visit callback: '
